@@ -209,13 +209,18 @@ pub fn apply_change_to_db_try_fix_conflicts(
 }
 
 pub fn unwatch_key(key: &String, sender: &Sender<String>, db: &Database) -> Response {
-    let mut senders = get_senders(&key, &db.watchers);
-    log::debug!("Senders before unwatch {:?}", senders.len());
-    senders.retain(|x| !x.same_receiver(&sender));
-    log::debug!("Senders after unwatch {:?}", senders.len());
     #[cfg(feature = "verif_hooks")]
     crate::verif::yield_point("unwatch_key:watchers:write");
     let mut watchers = db.watchers.map.write().expect("db.watchers.map.lock");
+    // The list is read and written back under the same lock: a copy taken earlier would drop a
+    // subscription another client added in between
+    let mut senders = match watchers.get(key) {
+        Some(watchers_vec) => watchers_vec.clone(),
+        _ => Vec::new(),
+    };
+    log::debug!("Senders before unwatch {:?}", senders.len());
+    senders.retain(|x| !x.same_receiver(&sender));
+    log::debug!("Senders after unwatch {:?}", senders.len());
     watchers.insert(key.clone(), senders);
     Response::Ok {}
 }
